@@ -45,6 +45,7 @@ def run_trace(name, prog, ops, mode):
             B.Obs.callno = k + 1
             d0, e0 = len(B.Obs.dlog), len(B.Obs.elog)
             raised = False
+            crash = None
             if op[0] == "emit":
                 _, entry, val, ch, fail_at = op
                 mdl = md_of(ch, k)
@@ -61,6 +62,9 @@ def run_trace(name, prog, ops, mode):
                             raised = True
                 except B.Injected:
                     raised = True
+                except Exception as e:      # the real code blew up on a well-typed program
+                    raised = True
+                    crash = repr(e)[:200]
                 st = {"ev": "emit", "e": entry, "x": B.enc(val), "md": mdl, "failAt": sorted(fail_at)}
             else:
                 _, n, fail_at = op
@@ -69,6 +73,9 @@ def run_trace(name, prog, ops, mode):
                     built.nodes[n].flush()
                 except B.Injected:
                     raised = True
+                except Exception as e:
+                    raised = True
+                    crash = repr(e)[:200]
                 st = {"ev": "flush", "e": n, "x": ["i", 0], "md": [], "failAt": sorted(fail_at)}
             st["raised"] = raised
             st["dlog"] = [d[:5] for d in B.Obs.dlog[d0:]]
@@ -79,6 +86,9 @@ def run_trace(name, prog, ops, mode):
             st["cbs"] = list(cbs)
             st["sinks"] = [[i, [B.enc(x) for x in out]] for i, out in sorted(built.sink_out.items())]
             steps.append(st)
+            if crash:
+                st["crash"] = crash
+                break
     finally:
         B.Obs.enabled = False
         B.destroy(built)
@@ -165,10 +175,14 @@ def main():
     ap.add_argument("--mode", default="async")
     ap.add_argument("--what", default="plain")       # plain | fail
     ap.add_argument("--only", default=None)          # substring filter on program names
+    ap.add_argument("--mutant", default=None)        # binding canary: in-memory mutant of streamz
     a = ap.parse_args()
     rng = random.Random(a.seed)
     loop = asyncio.new_event_loop()
     asyncio.set_event_loop(loop)
+    if a.mutant:
+        import mutants
+        mutants.apply(a.mutant)
     B.install_probes()
     progs = P.catalogue(a.tier)
     progs += P.sample_chains(rng, 150 if a.tier == "quick" else 1500, maxlen=3)
@@ -182,6 +196,11 @@ def main():
             plans = plans[::3] if a.tier == "quick" else plans
         for ops in plans:
             traces.append(run_trace(name, prog, ops, a.mode))
+    if a.mutant == "corrupt_log":
+        for t in traces:
+            d = t["steps"][-1]["dlog"]
+            if d:
+                d[-1][2] = ["i", 99]
     os.makedirs(a.out, exist_ok=True)
     for i, t in enumerate(traces):
         t["id"] = i + 1
